@@ -34,7 +34,7 @@ func (c07) Describe() CheckInfo {
 		},
 		RealCode:       []string{"gopatch main()/mainCmd.Run, patch.Parse/File.Apply, go/format, x/tools/imports, pkg/diff, internal/*"},
 		Stubs:          []string{"package os (simulated filesystem, streams, exit)", "path/filepath walk", "io/ioutil"},
-		RequiredProbes: []string{"misfit-in-place", "misfit-print", "misfit-diff", "misfit-skip-import", "misfit-api", "misfit-refused", "cross-emission-checked", "emission-in-place", "emission-print", "emission-diff", "emission-api", "multi-file", "large-file-emission", "identical-twins", "line-directive-subject", "same-change-fits-in-earlier-file"},
+		RequiredProbes: []string{"misfit-in-place", "misfit-print", "misfit-diff", "misfit-skip-import", "misfit-api", "misfit-refused", "cross-emission-checked", "emission-in-place", "emission-print", "emission-diff", "emission-api", "multi-file", "large-file-emission", "identical-twins", "line-directive-subject", "same-change-fits-in-earlier-file", "misfit-then-failing-change"},
 	}
 }
 
@@ -86,7 +86,22 @@ func (c07) Gen(env *Env, seed uint64, tier string, i int) *Case {
 			hdr = r.Pick([]string{"//line m_subject.y:1\n", "//line /gen/other.go:40\n\n", "// Produced by goyacc from parser.y.\n\n//line parser.y:2\n"})
 			c.Extra["line_directive"] = "1"
 		}
-		src := GenValidGoFile(r, GoFileOpts{Funcs: r.Range(1, 2), Stmts: []string{m.Stmt(k)}, Header: hdr})
+		stmts := []string{m.Stmt(k)}
+		if r.Chance(1, 4) {
+			// a later change matches the subject too and cannot be applied: the
+			// run fails for the file AFTER the misfit change has been carried out
+			for i := range c.Patches {
+				if c.Patches[i].Via == "stdin" {
+					c.Patches[i].Via = "p"
+					c.Patches[i].Path = PatDir + "/misfit.patch"
+					c.SetNode(world.NodeSpec{Path: c.Patches[i].Path, Kind: "file", Data: c.Patches[i].Data})
+				}
+			}
+			c.AddPatch("zfail.patch", "p", []byte("@@\nvar x expression\n@@\n-vfOldE(x)\n+bar(func() { var x int })\n"), nil, []string{"vfOldE"})
+			stmts = append(stmts, "vfOldE(1 + 2)")
+			c.Extra["then_fails"] = "1"
+		}
+		src := GenValidGoFile(r, GoFileOpts{Funcs: r.Range(1, 2), Stmts: stmts, Header: hdr})
 		c.AddFile("m_subject.go", src, "misfit", nil, m.Name)
 		if r.Chance(1, 3) {
 			// byte-identical copies of the failing file, adjacent in path order
@@ -283,18 +298,15 @@ func c07Parses(b []byte, multi bool) error {
 	if len(starts) < 2 {
 		return err
 	}
+	// a line that starts with "package " may also sit inside a comment: cut at
+	// the first boundary at which the piece so far is a complete file
 	prev := 0
-	for k := 1; k <= len(starts); k++ {
-		end := len(b)
-		if k < len(starts) {
-			end = starts[k]
+	for k := 1; k < len(starts); k++ {
+		if starts[k] > prev && ParsesAsGo(b[prev:starts[k]]) == nil {
+			prev = starts[k]
 		}
-		if e := ParsesAsGo(b[prev:end]); e != nil {
-			return e
-		}
-		prev = end
 	}
-	return nil
+	return ParsesAsGo(b[prev:])
 }
 
 // c07Restart: run 1 is killed somewhere after its first mutation, run 2 (another
@@ -464,10 +476,18 @@ func (c07) Eval(env *Env, c *Case) []Violation {
 	}
 	if subj != nil && strings.HasPrefix(fam, "misfit") && note == "" && misfitSupplied {
 		env.Probe("misfit-" + mode)
+		if c.Extra["then_fails"] == "1" {
+			env.Probe("misfit-then-failing-change")
+		}
 		if c.Flags.SkipImport {
 			env.Probe("misfit-skip-import")
 		}
 		b, emitted := em[subj.Path]
+		if emitted && bytes.Equal(b, orig[subj.Path].Data) {
+			// --print-only echoing the original bytes of a file it could not
+			// rewrite is not new content
+			emitted = false
+		}
 		named := namesPath(c, string(r.Stderr), subj.Path)
 		fin := goFiles(r.Final)
 		untouched := bytes.Equal(fin[subj.Path].Data, orig[subj.Path].Data)
